@@ -961,19 +961,29 @@ static int sch_pbpsi(sess_t *s) {
 		case 2: log_rc(s, "ans", cp_pbpsi_ans(tt[s->sid], uu[s->sid], s->g1[0], dd[s->sid][0], (const bn_t *)(s->b + 8), n)); return 1;
 		case 3: {
 			size_t len = 0;
-			bn_t z[5];
-			for (int i = 0; i < 5; i++) { bn_null(z[i]); bn_new(z[i]); }
+			/* an intersection with the client's m elements has at most m: the output array has exactly that many */
+			size_t zc = m ? m : 1;
+			bn_t *z = (bn_t *)malloc(sizeof(bn_t) * zc);
+			for (size_t i = 0; i < zc; i++) { bn_null(z[i]); bn_new(z[i]); }
+			int dupans = s->opt[2] == 1 && n >= 2;
+			if (dupans) {
+				/* the server's answer for its first element is delivered twice (in place of its second answer) */
+				gt_copy(tt[s->sid][1], tt[s->sid][0]);
+				g1_copy(uu[s->sid][1], uu[s->sid][0]);
+			}
+			tr_printf("NOTE %d answer-duplicated=%d\n", s->sid, dupans);
 			int rc = cp_pbpsi_int(z, &len, (const g2_t *)dd[s->sid], (const bn_t *)s->b, m, (const gt_t *)tt[s->sid], (const g1_t *)uu[s->sid], n);
 			log_rc(s, "int", rc);
 			if (rc == RLC_OK) {
 				/* which client elements came out */
 				tr_printf("OUT %d inter v=", s->sid);
 				int mask = 0;
-				for (size_t j = 0; j < len; j++) { for (size_t i = 0; i < m; i++) { if (bn_cmp(z[j], s->b[i]) == RLC_EQ) mask |= 1 << i; } }
+				for (size_t j = 0; j < len && j < zc; j++) { for (size_t i = 0; i < m; i++) { if (bn_cmp(z[j], s->b[i]) == RLC_EQ) mask |= 1 << i; } }
 				tr_printf("%02x\n", mask);
 				tr_printf("OUT %d interlen v=%02zx\n", s->sid, len);
 			}
-			for (int i = 0; i < 5; i++) { bn_free(z[i]); }
+			for (size_t i = 0; i < zc; i++) { bn_free(z[i]); }
+			free(z);
 			return 0;
 		}
 	}
